@@ -12,7 +12,7 @@ import numpy as np
 from .. import par
 from ..qlib import lib, q_from_float, q_to_float, omul, ofro, units
 
-_FLAGN = [0]
+_FLAGN = __import__("harness.qlib", fromlist=["register_counter"]).register_counter([0])
 
 
 def _flag(v):
